@@ -2,6 +2,7 @@ package main
 
 import (
 	"bufio"
+	"context"
 	"bytes"
 	"encoding/binary"
 	"encoding/hex"
@@ -751,6 +752,7 @@ func concWorker(seed int64, rounds int) {
 		var msgs []*ast.DataMessage
 		var texts []string
 		var encs [][]byte
+		deeps := map[int][]byte{} // decoded and re-encoded only: printing such a message is cubic in its depth
 		for i, it := range items {
 			m := ast.NewDataMessage(fmt.Sprintf("m%d", i), 1, 1, 2, "H->E", it)
 			msgs = append(msgs, m)
@@ -758,6 +760,14 @@ func concWorker(seed int64, rounds int) {
 			closed := genItem(r, GenOpt{MaxDepth: 3, MaxSlots: 4})
 			cm := completeMsgDesc(r, closed)
 			encs = append(encs, frame(cm.Sid, cm.S, cm.F, cm.W, cm.Sys, encodeVariant(closed, nil)))
+			if i%4 == 1 {
+				// a frame nested hundreds of lists deep: several of them are decoded at the same time
+				// (whatever a decoder keeps per process - a depth counter, a scratch stack - adds up)
+				depth := 400 + 300*(i%3)
+				text := bytes.Repeat([]byte{0x01, 0x01}, depth)
+				text = append(text, 0xA5, 0x01, byte(i))
+				deeps[i] = frame(cm.Sid, cm.S, cm.F, cm.W, cm.Sys, text)
+			}
 		}
 		sharedReq := ast.NewHSMSMessageSelectReq(uint16(round+1), []byte{1, 2, 3, byte(round)})
 		sharedLt := ast.NewHSMSMessageLinktestReq([]byte{9, 9, 9, byte(round)})
@@ -765,6 +775,10 @@ func concWorker(seed int64, rounds int) {
 		var jobs []job
 		for i := range items {
 			it, m, text, enc := items[i], msgs[i], texts[i], encs[i]
+			wire := enc
+			if d, ok := deeps[i]; ok {
+				wire = d
+			}
 			// arguments shared by all goroutines: a fill-in table (ellipsis counts, renames),
 			// system bytes, an encoded message; reading them concurrently is legal Go, so any
 			// race or changed result means a producer wrote to its argument
@@ -792,7 +806,7 @@ func concWorker(seed int64, rounds int) {
 				func(string) string {
 					out := "PANIC"
 					safely(func() {
-						if m2, ok := hsms.Parse(enc); ok {
+						if m2, ok := hsms.Parse(wire); ok {
 							out = hx(m2.ToBytes())
 						} else {
 							out = "fail"
@@ -912,12 +926,19 @@ func suiteC17(c *Ctx) []Suite {
 			var out []Case
 			for w := 0; w < c.N(3); w++ {
 				seed := c.R.Int63()
-				cmd := exec.Command(bin, "concworker", fmt.Sprint(seed), "6")
+				// a run takes a few seconds; one that is still going after three minutes is blocked
+				// (a lock that is never released, goroutines waiting for each other)
+				ctx, cancel := context.WithTimeout(context.Background(), 3*time.Minute)
+				cmd := exec.CommandContext(ctx, bin, "concworker", fmt.Sprint(seed), "6")
 				cmd.Env = append(os.Environ(), "GORACE=halt_on_error=1 exitcode=66")
 				b, err := cmd.CombinedOutput()
+				timedOut := ctx.Err() != nil
+				cancel()
 				cs := Case{Detail: fmt.Sprintf("8 goroutines x 60 calls x 6 rounds over shared items/messages/parsers, seed %d", seed), Nontrivial: true, Tags: []string{"conc-run"}}
 				s := string(b)
 				switch {
+				case timedOut:
+					cs.Oracle = "the concurrent workload did not finish within 3 minutes: calls on shared objects block each other forever (or one never returns)"
 				case strings.Contains(s, "DATA RACE"):
 					i := strings.Index(s, "DATA RACE")
 					end := i + 900
